@@ -100,15 +100,30 @@ def lake_build(targets):
     return rc == 0, o, dt
 
 
-def forbidden_tokens():
-    """grep for sorry/admit/axiom/native_decide/... in lean/Kanzi (outside comments)."""
+def import_closure(mods):
+    """files of the Kanzi.* modules transitively imported by `mods`."""
+    seen, todo = {}, list(mods)
+    while todo:
+        m = todo.pop()
+        if m in seen or not m.startswith("Kanzi"):
+            continue
+        path = os.path.join(LEAN, *m.split(".")) + ".lean"
+        if not os.path.exists(path):
+            continue
+        seen[m] = path
+        for line in open(path):
+            mm = re.match(r"\s*(?:public\s+)?import\s+([\w.]+)", line)
+            if mm:
+                todo.append(mm.group(1))
+    return sorted(seen.values())
+
+
+def forbidden_tokens(mods):
+    """grep for sorry/admit/axiom/native_decide/... in the modules the property depends on (outside comments)."""
     bad = []
     pat = re.compile(r"\b(sorry|admit|native_decide|implemented_by|bv_decide)\b|^\s*axiom\s|\bunsafe\s|maxHeartbeats\s+0\b")
-    for root, _, files in os.walk(os.path.join(LEAN, "Kanzi")):
-        for fn in files:
-            if not fn.endswith(".lean"):
-                continue
-            p = os.path.join(root, fn)
+    for p in import_closure(mods):
+        if True:
             txt = open(p).read()
             # strip block comments (non-nested approximation, then nested leftovers) and line comments
             prev = None
@@ -294,7 +309,7 @@ def check_property(pid, tier, seed):
         kok, ko, _ = lake_build(["kmodel"])
         if not kok:
             unproved.append({"what": "model driver kmodel does not build", "detail": ko[-2000:]})
-    bad_tokens = forbidden_tokens()
+    bad_tokens = forbidden_tokens(mods)
     if bad_tokens:
         unproved.append({"what": "forbidden token (sorry/admit/axiom/native_decide/...) in lean/Kanzi", "detail": bad_tokens[:10]})
     good_mods = [m for m in mods if m not in {b["module"] for b in broken_thms}]
